@@ -53,6 +53,14 @@ def run(ctx):
         lines.append(f"prop.c04bf3 {k} {c} {cs} all 1 0" if False else f"prop.c04bf3 {k} {c} {cs} prefix 1000000 0")
         for off in range(S):
             lines.append(f"prop.c04bf3 {k} {c} {cs} bytes {S} {off}")
+    # files whose payloads are longer than any internal buffer or chunk size (4 KiB, 64 KiB): sampled positions, spread over
+    # the whole file, so that damage far in front of the end of a long MAC'd span is tried
+    bigs = g.threshold_comps(rng, enc=True)[1:2] + g.threshold_comps(rng, enc=False)[1:2] + ([] if ctx.quick else g.threshold_comps(rng)[2:3])
+    for cs in bigs:
+        k = hx(g.gen_key(rng))
+        stride = 211 if len(cs) < 40000 else 4099
+        for off in rng.sample(range(stride), 4 if ctx.quick else 16):
+            lines.append(f"prop.c04bf3 {k} - {cs} bytes {stride} {off}")
     r = ctx.check_props(lines, "prop.c04bf3")
     ctx.extra["damaged_variants_on_real_code_bf3"] = sum(int(x.split()[1]) for x in r if x.startswith("ok "))
     bfiles = [gb.gen_file(rng, ecc=(i % 4 == 3)) for i in range(4 if ctx.quick else 120)]
@@ -62,6 +70,11 @@ def run(ctx):
         lines.append(f"prop.c04bec2 {args} prefix 1000000 0")
         for off in range(S):
             lines.append(f"prop.c04bec2 {args} bytes {S} {off}")
+    for cs in bigs[:2]:
+        f = gb.gen_file(rng, ecc=False)
+        args = f"{f['key']} {f['blocks']} {cs} {f['encs']} {f['ephs']}"
+        for off in rng.sample(range(211), 3 if ctx.quick else 12):
+            lines.append(f"prop.c04bec2 {args} bytes 211 {off}")
     r = ctx.check_props(lines, "prop.c04bec2")
     ctx.extra["damaged_variants_on_real_code_bec2"] = sum(int(x.split()[1]) for x in r if x.startswith("ok "))
     # model vs code on damaged binaries
